@@ -25,7 +25,7 @@ from ..gen.lit import str_lit
 ID = "C23"
 LEVEL = "exploration"
 BUDGET = {"quick": 20, "thorough": 240}
-FLOOR = {"quick": 500, "thorough": 800}
+FLOOR = {"quick": 250, "thorough": 400}
 RULE = ("every accepted algorithm x plaintext lengths 0-96 (all residues mod 16, emphasis on 16k-1/16k/16k+1; "
         "a few up to 2048) with random / all-zero / all-0xff / text / padding-lookalike tails (..80, ..80 00, "
         "..03 03 03, ..00 00 04, ..10 x16) x random and degenerate (all-zero, all-0xff, one repeated byte, ASCII) "
